@@ -26,6 +26,13 @@ func (a Access) IsWrite() bool {
 // EnclosingFn returns the declared function containing n.
 func (p *Prog) EnclosingFn(n ast.Node) *Fn {
 	for q := n; q != nil; q = p.parents[q] {
+		if lit, ok := q.(*ast.FuncLit); ok {
+			for _, f := range p.fnList {
+				if f.Lit == lit {
+					return f
+				}
+			}
+		}
 		if fd, ok := q.(*ast.FuncDecl); ok {
 			for _, f := range p.fnList {
 				if f.Decl == fd {
